@@ -250,7 +250,12 @@ class Analysis:
         """a closure that is built and called in the same function — `let f = |p| expr; .. f(x)` — is replaced by its
         body's single return term with the captures and the arguments substituted (pure single-expression closures only)"""
         callee, args = ct[1], ct[2]
-        if not isinstance(callee, str) or callee.split('::')[-1] not in ('call', 'call_mut', 'call_once') or 'ops::Fn' not in callee or len(args) != 2 or depth > 2:
+        if isinstance(callee, str) and callee.endswith('Option::<T>::and_then') and len(args) == 2 and depth <= 2:
+            # opt.and_then(|x| E(x)): the value, when there is one, is E(payload of opt) -- read as that term (the None
+            # case carries no data; which variant results is not encoded and has to be tested by the code anyway)
+            payload = ('field', args[0], '0', 'std::option::Option', 'Some')
+            args = (args[1], ('agg', 'tuple', None, None, (('0', payload),)))
+        elif not isinstance(callee, str) or callee.split('::')[-1] not in ('call', 'call_mut', 'call_once') or 'ops::Fn' not in callee or len(args) != 2 or depth > 2:
             return None
         clo = args[0]
         while clo[0] in ('ref', 'deref'):
